@@ -8,6 +8,8 @@
                               then on content.xml; dict updates = newest binding first)
     extractTextProperties   → `textProps`   (the `parent` argument has no effect in the source: `textProp = parentProp`)
     extractParagraphProperties → `paraProps` (heading level is computed but never used: left out)
+    _elements               → `elems` (toString: first element child of office:body; the loops of toString, listToString and
+                              tableToString skip text nodes)
     toString                → `toString`
     textToString            → `kidsStr` (the loop) / `nodeStr` (one child)
     paragraphToString       → `paraPost` applied to the inline_markup of the paragraph
@@ -131,6 +133,9 @@ end
 
 def byTag (n : Node) (t : Str) : List Node := (descs n).filter (fun d => tagOf d == some t)
 def byTagL (ns : List Node) (t : Str) : List Node := (descsL ns).filter (fun d => tagOf d == some t)
+
+/-- `ODF2MoinMoin._elements(node)`: the element children (white space between block level elements is not content) -/
+def elems (l : List Node) : List Node := l.filter (fun n => (tagOf n).isSome)
 
 def attrsOf : Node → Attrs
   | .elem _ a _ => a
@@ -361,7 +366,7 @@ def kidsStr (sty : Styles) (st : MSt) : List Node → M (Str × MSt)
 /-- listToString: the loop over the list's children -/
 def itemsStr (sty : Styles) (ordered : Bool) (indent : Nat) (st : MSt) : List Node → M (Str × MSt)
   | [] => .ok ([], st)
-  | .text _ :: _ => .error .attributeError
+  | .text _ :: rest => itemsStr sty ordered indent st rest          -- `_elements`: only element children are looked at
   | .elem qi _ ikids :: rest =>
     match subitemsStr sty indent st ikids with
     | .error e => .error e
@@ -372,7 +377,7 @@ def itemsStr (sty : Styles) (ordered : Bool) (indent : Nat) (st : MSt) : List No
 /-- the inner loop over item.childNodes (only text:p, text:h, text:list are looked at) -/
 def subitemsStr (sty : Styles) (indent : Nat) (st : MSt) : List Node → M (Str × MSt)
   | [] => .ok ([], st)
-  | .text _ :: _ => .error .attributeError
+  | .text _ :: rest => subitemsStr sty indent st rest
   | .elem q attrs kids :: rest =>
     if q = tList then
       match itemsStr sty ((sty.list.lookup (getAttr attrs kStyleName)).getD false) (indent + 3) { st with last := some q } kids with
@@ -395,7 +400,7 @@ def subitemsStr (sty : Styles) (indent : Nat) (st : MSt) : List Node → M (Str 
 /-- the loop over the cells of a row -/
 def cellsStr (sty : Styles) (st : MSt) : List Node → M (Str × MSt)
   | [] => .ok ([], st)
-  | .text _ :: _ => .error .attributeError
+  | .text _ :: rest => cellsStr sty st rest
   | .elem q attrs kids :: rest =>
     match kidsStr sty st kids with
     | .error e => .error e
@@ -406,7 +411,7 @@ def cellsStr (sty : Styles) (st : MSt) : List Node → M (Str × MSt)
 
 /-- tableToString: one child of the table (header rows recurse; other children are skipped) -/
 def rowStr (sty : Styles) (st : MSt) : Node → M (Str × MSt)
-  | .text _ => .error .attributeError
+  | .text _ => .ok ([], st)                                         -- not an element child: skipped by `_elements`
   | .elem q _ kids =>
     let st0 := { st with last := some q }
     if q = tHeaderRows then rowsStr sty st0 kids
@@ -430,7 +435,7 @@ end
 /-- the loop of toString over the children of office:text; returns the buffer entries -/
 def topStr (sty : Styles) (st : MSt) : List Node → M (List Str × MSt)
   | [] => .ok ([], st)
-  | .text _ :: _ => .error .attributeError
+  | .text _ :: rest => topStr sty st rest
   | .elem q attrs kids :: rest =>
     let r : Option (M (Str × MSt)) :=
       if q = tList then some (itemsStr sty ((sty.list.lookup (getAttr attrs kStyleName)).getD false) 0 { st with last := some q } kids)
@@ -455,7 +460,7 @@ def toString (stylesDoc contentDoc : Node) : M Str := do
   match byTag contentDoc tBody with
   | [] => .error .indexError
   | body :: _ =>
-    match kidsOf body with
+    match elems (kidsOf body) with
     | [] => .error .indexError
     | text :: _ =>
       let (buf, st) ← topStr sty {} (kidsOf text)
